@@ -18,6 +18,7 @@ def run(rep):
     e1(rep, w)
     e2(rep, w)
     e3(rep, w)
+    e4(rep, w)
     c04.b3(rep, w)
 
 
@@ -183,3 +184,25 @@ def e3(rep, w):
             ok = ok and (from_header or from_len)
         r.check(ok, '%s: the closing Loop targets the position push_loop recorded' % nm, 'the loop jumps back to a position other than its recorded header: '
                 '`continue` and the natural back-edge disagree', f.loc())
+
+
+def e4(rep, w):
+    """immutable values stay immutable: ranges, tuples and strings are shared by handle (a range literal may come out of a cache,
+    a for loop keeps its range while other code runs), so writing one in place changes values other code still holds"""
+    c = w.yarel
+    r = rep.rule('E4', 'shared immutable values (ObjRange, ObjTuple, ObjString, ObjFunction) are never written after construction; the unsafe '
+                 '&mut accessor of Root is used only while the core classes are bootstrapped', floor=6)
+    for adt, fields in (('yarel::object::ObjRange', ('begin', 'end', 'class')), ('yarel::object::ObjTuple', ('elements', 'class')),
+                        ('yarel::object::ObjString', ('string', 'hash')), ('yarel::object::ObjFunction', ('arity', 'upvalue_count', 'chunk', 'name'))):
+        for fld in fields:
+            ws = sorted({f.path for (f, sp, k) in c01.field_writers(w, adt, fld) if k == 'store'})
+            allowed = {'yarel::compiler::Compiler::allocate_function', "yarel::compiler::Parser::<'a>::parameter_list", 'yarel::compiler::Compiler::add_upvalue'} \
+                if adt.endswith('ObjFunction') else set()
+            r.check(set(ws) <= allowed, '%s.%s has no writer after construction' % (adt.rsplit('::', 1)[-1], fld),
+                    '%s.%s is written in %s: every holder of the same handle sees the change (a cached range literal, the range of a running '
+                    'for loop, a map key...)' % (adt.rsplit('::', 1)[-1], fld, sorted(set(ws) - allowed)))
+    am = 'yarel::memory::Root::<T>::as_mut'
+    callers = sorted({g.path for (g, bi, t) in c01.callers_of(w, am)})
+    boot = {'yarel::vm::Vm::init_heap_allocated_data', 'yarel::core::bind_type_class', 'yarel::core::bind_object_class',
+            'yarel::core::bind_gc_obj_string_class', 'yarel::core::new_base_metaclass'}
+    r.check(set(callers) <= boot, 'Root::as_mut is used only by the core-class bootstrap', 'Root::as_mut (unsafe &mut into shared storage) is used in %s' % sorted(set(callers) - boot))
